@@ -27,6 +27,7 @@ def run(tier):
     # blocks on which rewrite rules fire (the rewritten records carry flags the back end relies on) around the witness shape
     rules = gen.rule_corpus()
     extra = (rules if tier != "quick" else rng.sample(rules, 250)) + ["DUP1 SWAP3 SWAP1 SHL SWAP2 SHL AND", "DUP1 SWAP2 SHL SWAP2 SWAP1 SHL AND SWAP1 POP"]
+    extra += gen.trailing_store_corpus(sd * 41 + 9, 400 if tier == "quick" else 4000)
     extra += gen.stack_corpus() + gen.deep_operand_corpus() + gen.deep_same_operand_corpus() + gen.cross_region_corpus() + gen.deep_stack_blocks(sd * 19 + 1, 120 if tier == 'quick' else 1500) + gen.blocks(sd * 17 + 3, 150 if tier == 'quick' else 2000, profiles=('stack',))
     res = c02.collect(tier, sd + 1000, rng, greedy=True, extra=extra)
     c = Counter()
